@@ -37,6 +37,8 @@ pub struct Rec {
 pub struct Model {
     pub archs: Vec<ArchM>,
     pub ents: BTreeMap<Bits, Rec>,
+    /// live entities per archetype (index into `ents`)
+    pub by_arch: Vec<BTreeSet<Bits>>,
     /// every handle ever returned by a create call in this world's lineage (C08)
     pub issued: BTreeSet<Bits>,
     /// (archetype, slot) pairs whose generation wrapped (wrapping_version only)
@@ -44,6 +46,13 @@ pub struct Model {
 }
 
 impl Model {
+    pub fn clear_entities(&mut self) {
+        self.ents.clear();
+        for s in self.by_arch.iter_mut() {
+            s.clear();
+        }
+    }
+
     pub fn new(caps: &[usize]) -> Self {
         Model {
             archs: caps
@@ -51,17 +60,19 @@ impl Model {
                 .map(|c| ArchM { len: 0, cap: *c, removals: 0, creations: 0, ver: 1, ver_obs: 0, rem_at_obs: 0, slot_gens: Vec::new(), preset: false, created_ev: Vec::new(), destroyed_ev: Vec::new() })
                 .collect(),
             ents: BTreeMap::new(),
+            by_arch: caps.iter().map(|_| BTreeSet::new()).collect(),
             issued: BTreeSet::new(),
             wrapped: BTreeSet::new(),
         }
     }
 
     pub fn live_of(&self, arch: usize) -> Vec<Bits> {
-        self.ents.iter().filter(|(_, r)| r.arch == arch).map(|(b, _)| *b).collect()
+        self.by_arch[arch].iter().copied().collect()
     }
 
     pub fn insert(&mut self, bits: Bits, arch: usize, cols: Vec<Obs>) {
         self.ents.insert(bits, Rec { arch, cols });
+        self.by_arch[arch].insert(bits);
         let a = &mut self.archs[arch];
         a.len += 1;
         a.creations += 1;
@@ -71,6 +82,7 @@ impl Model {
 
     pub fn remove(&mut self, bits: Bits, wrapping: bool) -> Option<Rec> {
         let r = self.ents.remove(&bits)?;
+        self.by_arch[r.arch].remove(&bits);
         let a = &mut self.archs[r.arch];
         a.len -= 1;
         a.removals += 1;
